@@ -568,7 +568,9 @@ func (store *KeyStore) getPrivateKeyByFilename(filename string, keyContext keyst
 	store.lock.Lock()
 	defer store.lock.Unlock()
 	encryptedKey, ok := store.cache.Get(filename)
-	if !ok {
+	// empty value is the mark left in the cache by key destruction: (re)load the key file,
+	// the key is still there if its destruction failed
+	if !ok || len(encryptedKey) == 0 {
 		loadKeyCallback := func() ([]byte, error) {
 			encryptedPrivateKey, err := store.loadPrivateKey(store.GetPrivateKeyFilePath(filename))
 			if err != nil {
@@ -610,7 +612,7 @@ func (store *KeyStore) getPrivateKeysByFilenames(filenames []string, keyContext 
 // getPublicKeyByFilename return public key from cache or load from filesystem, store in cache and return
 func (store *KeyStore) getPublicKeyByFilename(filename string) (*keys.PublicKey, error) {
 	binKey, ok := store.cache.Get(filename)
-	if !ok {
+	if !ok || len(binKey) == 0 {
 		publicKey, err := store.loadPublicKey(filename)
 		if err != nil {
 			return nil, err
@@ -936,7 +938,7 @@ func (store *KeyStore) GetPoisonKeyPair() (*keys.Keypair, error) {
 
 	privateKey, privateOk := store.cache.Get(PoisonKeyFilename)
 	publicKey, publicOk := store.cache.Get(poisonKeyFilenamePublic)
-	if privateOk && publicOk {
+	if privateOk && publicOk && len(privateKey) != 0 && len(publicKey) != 0 {
 		decryptedPrivate, err := store.cacheEncryptor.Decrypt(store.encryptorCtx, privateKey, keyContext)
 		if err != nil {
 			return nil, err
@@ -1110,7 +1112,7 @@ func (store *KeyStore) GetHMACSecretKey(id []byte) ([]byte, error) {
 	keyContext := keystore.NewClientIDKeyContext(keystore.PurposeSearchHMAC, id)
 
 	encryptedKey, ok := store.Get(filename)
-	if !ok {
+	if !ok || len(encryptedKey) == 0 {
 		return store.loadKeyAndCache(filename, keyContext, func() ([]byte, error) {
 			return store.ReadKeyFile(store.GetPrivateKeyFilePath(filename))
 		})
